@@ -1,0 +1,83 @@
+//go:build verif
+
+// Verification hooks for property C01 (add-only, compiled only with -tags verif).
+package environment
+
+import (
+	"errors"
+
+	"github.com/AliceO2Group/Control/common/utils/uid"
+	"github.com/AliceO2Group/Control/core/task"
+)
+
+// VerifC01Transition is a Transition (the interface has unexported methods) whose event name and
+// body are chosen by the harness.  It lets the harness fire every event name of the FSM table -
+// including EXIT and RECOVER, which no Transition implementation of the package carries - through
+// the real TryTransition / Sm.Event / callback code of a real Environment.
+type VerifC01Transition struct {
+	Name string
+	Body func(env *Environment) error
+}
+
+func (t VerifC01Transition) eventName() string { return t.Name }
+func (t VerifC01Transition) check() error      { return nil }
+func (t VerifC01Transition) do(env *Environment) error {
+	if t.Body == nil {
+		return nil
+	}
+	return t.Body(env)
+}
+
+// VerifC01NewListed performs the part of CreateEnvironment that precedes the automatic
+// DEPLOY/CONFIGURE transitions: newEnvironment, hook handler, workflow load, registration in the
+// manager's map and state-change channel map.  The environment is returned in STANDBY, listed, so
+// that RpcServer.ControlEnvironment / DestroyEnvironment find it.
+func (envs *Manager) VerifC01NewListed(workflowPath string, userVars map[string]string, newId uid.ID) (*Environment, error) {
+	env, err := newEnvironment(userVars, newId)
+	if err != nil {
+		return nil, err
+	}
+	if env == nil {
+		return nil, errors.New("newEnvironment returned nil environment")
+	}
+	env.WorkflowPath = workflowPath
+	env.hookHandlerF = func(hooks task.Tasks) error {
+		return envs.taskman.TriggerHooks(newId, hooks)
+	}
+	env.UserVars.Set("environment_id", env.id.String())
+	env.workflow, err = envs.loadWorkflow(workflowPath, env.wfAdapter, map[string]string{}, env.BaseConfigStack)
+	if err != nil {
+		return nil, err
+	}
+	envs.mu.Lock()
+	envs.m[env.id] = env
+	envs.pendingStateChangeCh[env.id] = env.stateChangedCh
+	envs.mu.Unlock()
+	return env, nil
+}
+
+// VerifC01TransitionNames returns the event names carried by the Transition values the package
+// can construct (the constructors used by every TryTransition caller).
+func VerifC01TransitionNames(taskman *task.Manager) []string {
+	ts := []Transition{
+		NewDeployTransition(taskman, nil, nil),
+		NewConfigureTransition(taskman),
+		NewResetTransition(taskman),
+		NewStartActivityTransition(taskman),
+		NewStopActivityTransition(taskman),
+		NewGoErrorTransition(taskman),
+	}
+	out := make([]string, 0, len(ts))
+	for _, t := range ts {
+		out = append(out, t.eventName())
+	}
+	return out
+}
+
+// VerifC01MakeTransitionName returns the event name of MakeTransition(optype), "" for nil.
+func VerifC01MakeTransitionName(t Transition) string {
+	if t == nil {
+		return ""
+	}
+	return t.eventName()
+}
